@@ -517,6 +517,12 @@ func (x *Exec) opClosure2(op Op, res *OpResult) (string, func()) {
 		x.ReloadTargets = append(x.ReloadTargets, x.C.Configs[idx])
 		return "reload", func() {
 			_, err := w.Plugin.VerifUpdateConfigMap()
+			if err != nil {
+				// the configmap poll loop comes round again (every minute) and finds the same text still unapplied
+				x.Rec.Logf("      reload failed (%v), polled again", err)
+				x.count("reload_retried")
+				_, err = w.Plugin.VerifUpdateConfigMap()
+			}
 			res.Err = err
 			if err == nil {
 				w.mu.Lock()
